@@ -38,6 +38,13 @@ impl Attr for (f32, Color3f) {
     fn bits(&self) -> Vec<u32> { std::iter::once(self.0.to_bits()).chain(self.1 .0.iter().map(|c| c.to_bits())).collect() }
 }
 
+// an angle (in units of ten degrees: values well beyond half a turn apart) and a plain number
+impl Attr for (re::math::angle::Angle, f32) {
+    fn make(a: f32, b: f32) -> Self { (re::math::angle::degs(a * 10.0), b) }
+    fn xy(&self) -> (f32, f32) { (self.0.to_degs() / 10.0, self.1) }
+    fn bits(&self) -> Vec<u32> { vec![self.0.to_rads().to_bits(), self.1.to_bits()] }
+}
+
 /// `scale` (a power of two, exact) multiplies all four homogeneous coordinates:
 /// the same projective triangle, so the same clipping in barycentric terms.
 fn mk_tri<A: Attr>(t: &Value, a: &Value, scale: f32) -> (Tri<ClipVert<A>>, [[f64; 4]; 3]) {
@@ -117,6 +124,7 @@ pub fn exec(case: &Value) -> Value {
     match case.get("at").and_then(|v| v.as_str()).unwrap_or("vec2") {
         "col3" => exec_a::<Color3f>(case),
         "tup" => exec_a::<(f32, Color3f)>(case),
+        "ang" => exec_a::<(re::math::angle::Angle, f32)>(case),
         _ => exec_a::<Vec2>(case),
     }
 }
@@ -247,14 +255,24 @@ pub fn gen(args: &Args, out: &mut dyn Write) {
         let mut c = tri_json(&mut rng, t);
         let nb = rng.below(5) as usize;
         let others: Vec<Value> = (0..nb).map(|_| { let o = gen_tri(&mut rng, r); tri_json(&mut rng, o) }).collect();
+        // every third call: a neighbour sharing an edge with the triangle (same two positions, its own
+        // attributes: a seam) is clipped right after or right before it
+        let mut others = others;
+        let mut pos = rng.below(nb as u64 + 1) as usize;
+        if i % 3 == 1 {
+            let (ea, eb) = *rng.pick(&[(0usize, 1usize), (1, 2), (2, 0)]);
+            let third = gen_tri(&mut rng, r)[0];
+            let nbr = tri_json(&mut rng, [t[eb], t[ea], third]);
+            if rng.chance(1, 2) { others.insert(pos, nbr); } else { others.insert(pos, nbr); pos += 1; }
+        }
         let o = c.as_object_mut().unwrap();
         o.insert("k".into(), json!(format!("c{}-{}", args.seed, i)));
         o.insert("others".into(), json!(others));
-        o.insert("pos".into(), json!(rng.below(nb as u64 + 1)));
+        o.insert("pos".into(), json!(pos));
         // homogeneous scale 2^sc of the whole call (tiny, ordinary and large coordinates)
         o.insert("sc".into(), json!([0i64, 0, -30, 0, 20, -12][(i % 6) as usize]));
         // which entry point / plane order (every 5th call: the public Clip::clip with reordered planes)
-        o.insert("at".into(), json!(["vec2", "col3", "vec2", "tup"][(i % 4) as usize]));
+        o.insert("at".into(), json!(["vec2", "col3", "ang", "tup"][(i % 4) as usize]));
         o.insert("po".into(), json!(if i % 5 == 4 { 1 + (i / 5) % 3 } else { 0 }));
         writeln!(out, "{c}").unwrap();
     }
